@@ -112,3 +112,36 @@ pub fn template_order(_args: &[String]) -> String {
     }
     format!("{{\"found\": false, \"tried\": {}}}", tried)
 }
+
+/// C10 / C12: the parser hands the renderer exactly the field options written in the template
+/// (`{key:[<^>][width][!]}`): width, alignment and truncation only when asked for.
+pub fn template_fields(_args: &[String]) -> String {
+    std::panic::set_hook(Box::new(|_| {}));
+    let mut tried = 0;
+    let msg = "abcdefgh";
+    let cases: [(&str, &str); 14] = [
+        ("[{msg}]", "[abcdefgh]"), ("[{msg:5}]", "[abcdefgh]"), ("[{msg:5!}]", "[abcde]"), ("[{msg:>5!}]", "[defgh]"), ("[{msg:^4!}]", "[cdef]"),
+        ("[{msg:12}]", "[abcdefgh    ]"), ("[{msg:>12}]", "[    abcdefgh]"), ("[{msg:^12}]", "[  abcdefgh  ]"), ("[{msg:<12!}]", "[abcdefgh    ]"),
+        ("[{pos:>3}/{len:3}]", "[  3/10 ]"), ("[{pos:3}]", "[3  ]"), ("[{pos:^5}]", "[  3  ]"), ("[{prefix:4}|{msg:2}]", "[PFX |abcdefgh]"), ("[{msg:0!}]", "[]"),
+    ];
+    for (t, want) in cases {
+        let r = catch_unwind(AssertUnwindSafe(|| {
+            let style = ProgressStyle::with_template(t).ok()?;
+            let term = InMemoryTerm::new(10, 80);
+            let pb = ProgressBar::with_draw_target(Some(10), ProgressDrawTarget::term_like(Box::new(term.clone())));
+            pb.set_style(style);
+            pb.set_message(msg);
+            pb.set_prefix("PFX");
+            pb.set_position(3);
+            pb.tick();
+            Some(term.contents())
+        }));
+        tried += 1;
+        let got = match r { Ok(Some(g)) => g, Ok(None) => "<template rejected>".to_string(), Err(_) => "<panic>".to_string() };
+        if got != want {
+            return format!("{{\"found\": true, \"clause\": \"C10/C12 a placeholder is rendered with exactly the width, alignment and truncation written in the template\", \"tried\": {}, \"input\": {{\"template\": {}, \"msg\": {}, \"expected\": {}, \"rendered\": {}}}, \"rerun\": \"replay template_fields\"}}",
+                tried, crate::js(t), crate::js(msg), crate::js(want), crate::js(&got));
+        }
+    }
+    format!("{{\"found\": false, \"tried\": {}}}", tried)
+}
